@@ -62,12 +62,6 @@ Fixpoint scert (p : pat) {struct p} : list var :=
   end.
 
 (* ---- expressions ---- *)
-Fixpoint nots_ok (e : expr) (c : list var) : bool :=
-  match e with
-  | ECmp _ _ _ => true
-  | EAnd a b | EOr a b => nots_ok a c && nots_ok b c
-  | ENot a => subset_v (expr_vars a) c && nots_ok a c
-  end.
 Fixpoint ord_vars_e (e : expr) : list var :=
   match e with
   | ECmp op l r => if ordering op then l :: tm_vars r else []
@@ -82,27 +76,28 @@ Fixpoint ord_consts_e (e : expr) : bool :=
   | ENot a => ord_consts_e a
   end.
 
-(* ---- noerr ---- *)
+(* ---- noerr ----
+   What is left of it since the engine evaluates FILTER three-valued (56f413c) and CONCAT leaves its target unbound on an unbound
+   argument (1fdcd07): a BIND target is not in scope before the BIND in its own group - SPARQL's syntactic restriction on BIND
+   (the algebra's `extend` leaves a bound target alone, the engine compares).  cacc is threaded for the proofs only. *)
 Fixpoint noerr (p : pat) {struct p} : bool :=
   match p with
-  | PBgp _ | PValues _ _ => true
+  | PBgp _ | PValues _ _ | PFilter _ | PBind _ _ => true
   | PGroup es =>
       (fix go (es : list pat) (cacc pacc : list var) (fs : list expr) {struct es} : bool :=
          match es with
-         | [] => forallb (fun f => nots_ok f cacc) fs
+         | [] => true
          | e :: r =>
              match e with
              | PFilter f => go r cacc pacc (fs ++ [f])
              | PBind args v =>
-                 subset_v (barg_vars args) cacc && negb (mem_var v pacc)
+                 negb (mem_var v pacc)
                  && go r (if subset_v (barg_vars args) cacc then v :: cacc else cacc) (pacc ++ [v]) fs
              | _ => noerr e && go r (cacc ++ scert e) (pacc ++ sposs e) fs
              end
          end) es [] [] []
   | PUnion gs => (fix go (gs : list pat) : bool := match gs with [] => true | g :: r => noerr g && go r end) gs
   | PGraph _ q => noerr q
-  | PFilter f => nots_ok f []
-  | PBind args _ => match barg_vars args with [] => true | _ => false end
   | PSub s => match s with Sel _ _ w _ _ _ => noerr w end
   end.
 
